@@ -7,3 +7,11 @@ CHECKS['C01'] = dict(
          'position x every query method x every documented result attribute; oracle = no '
          'exception in range, ValueError exactly out of range. Coverage statement, not a proof.',
     note=STUBS, technique='small-scope exhaustive enumeration of (text, position, query) on the implementation')
+CHECKS['C02'] = dict(
+    text='Bounded-exhaustive exploration over the program family PF: every composition source x '
+         'carrier chain up to the stated depth is rendered, executed by CPython under AST '
+         'instrumentation, and every expression occurrence the run evaluated is probed with '
+         'Script.infer; oracle = run-time class/def location must be reported (exactly, where one '
+         'value can reach the expression).',
+    note=STUBS + '; run-time values outside the tracked universe are not judged; implicit None returns are not judged',
+    technique='small-scope exhaustive enumeration of generated programs, differential oracle = CPython execution')
